@@ -18,6 +18,25 @@ func properties() map[string]*PropertySpec {
 			{Name: "H_C16_controls", Native: true, Reach: []string{"constructed"}, Bound: "7 constructors x every sequence of <= 3 options drawn from 5 options and nil; all uint values"},
 			{Name: "H_C16_mux", Native: true, Reach: []string{"registered"}, Bound: "8 registration methods x nil/non-nil handler x <= 3 options"},
 		}})
+	c01 := func(name, reach, bound, tiers string) HarnessSpec {
+		return HarnessSpec{Name: name, Native: true, Reach: []string{reach}, Bound: bound, Tiers: tiers}
+	}
+	add(&PropertySpec{ID: "C01",
+		Functions: "newRequest, newMessage, (*packet).{requestType,requestMessageID,simpleBindParameters,searchParmeters,modifyParameters,addParameters,deleteParameters,extendedOperationName,controlPacket,assert}, decodeControl, decodeAttribute, ConvertString; reference client encoder (harness) through the asn1-ber constructors (real SSA)",
+		Outside:   []string{"semantic equality of filters (go-ldap's compiler/decompiler: the check is that the decompiled text of exactly the client's filter node is stored unmodified)", "more than 1 control per message (2 on Delete), more than 3 requested attributes, 2 add attributes x 2 values, 2 changes x 2 values", "the client's own length/integer octets are summarised while the request is built (lemma ParseInt64(encodeInteger(x)) = x is discharged in C04); modify values are bounded to < 12 bytes because the real length encoder and ConvertString run on them"},
+		Harnesses: []HarnessSpec{
+			c01("H_C01_bind", "bind ok", "message ID 0..2^31-1, DN and password unbounded strings, <= 1 control of each of 12 kinds", ""),
+			c01("H_C01_search", "search ok", "scope 0..2, deref 0..3, limits 0..2^31-1, <= 3 attributes, <= 1 control", ""),
+			c01("H_C01_modify", "modify ok", "<= 1 change x <= 2 values, strings < 12 bytes, <= 1 control", ""),
+			c01("H_C01_modify2", "modify ok", "<= 2 changes x <= 2 values, strings < 12 bytes", "thorough"),
+			c01("H_C01_add", "add ok", "<= 2 attributes x <= 2 values, <= 1 control", ""),
+			c01("H_C01_delete", "delete ok", "<= 1 control", "quick"),
+			c01("H_C01_delete2", "delete ok", "every ordered pair of the 12 control kinds", "thorough"),
+			c01("H_C01_extended", "extended ok", "unbounded name", ""),
+			c01("H_C01_unbind", "unbind ok", "", ""),
+			c01("H_C01_unsupported", "unsupported checked", "application tags 0..30 other than the seven supported, primitive with arbitrary content or constructed with <= 3 arbitrary children", ""),
+			c01("H_C01_bindversion", "version checked", "every int64 version other than 3", ""),
+		}})
 	add(&PropertySpec{ID: "C02",
 		Functions: "(*conn).readRequest, (*conn).readPacket, newRequest, newMessage, (*packet).{basicValidation,requestPacket,requestType,requestMessageID,simpleBindParameters,searchParmeters,modifyParameters,addParameters,deleteParameters,extendedOperationName,controlPacket,assert,assertApplicationRequest}, decodeControl, decodeAttribute, NewControl*",
 		Outside:   []string{"byte-level framing (length octets, truncation, EOC, oversize): the asn1-ber reader's error outcome by contract (DESIGN §5.1)", "panics inside asn1-ber's reader and go-ldap's DecompileFilter (it recovers)", "universal REAL and GeneralizedTime payloads (opaque values)", "trees deeper than 5 below the envelope or wider than the stated widths"},
